@@ -717,6 +717,253 @@ func twoObjSeq(c *hx.Ctx, kind string) string {
 	return kind + " | " + strings.Join(ops, " ; ")
 }
 
+// ---------------------------------------------------------------- capacity history
+
+// The state these classes aim at is not visible in (cursor, contents): it is the CAPACITY the object acquired earlier in its
+// life. An object that once held 64 KiB .. 1 MiB keeps (or deliberately gives back) that memory while its contents shrink to
+// a few bytes; every op that compacts, reslices, reallocates or resets decides on cap/len/cursor together. The skeleton is
+// always  grow (one or several large payloads) - drain to a chosen unread tail - compaction op - continued small use,
+// observed after every op.
+
+// capSizes: payload sizes after which the capacity is 64 KiB and more (quick tier); capSizesMore: thorough tier only (the
+// drain/compact templates of the thorough tier list their sizes in gen)
+var capSizes = []int{65536, 65537, 70000, 131072, 262144}
+var capSizesMore = []int{98304, 131073, 200000, 400000, 524288, mib - 1, mib, mib + 1, 2 * mib}
+
+// capTails: unread bytes left when the compaction op arrives: nothing, a few bytes, the small-buffer size, a page, a quarter
+// of 64 KiB, 64 KiB, half / all but one / all of what is there
+func capTails(s int) []int {
+	var out []int
+	seen := map[int]bool{}
+	for _, t := range []int{0, 1, 3, 64, 100, 4096, 16383, 16384, 16385, 65535, 65536, 65537, s / 2, s - 1, s} {
+		if t >= 0 && t <= s && !seen[t] {
+			seen[t] = true
+			out = append(out, t)
+		}
+	}
+	return out
+}
+
+// drainTo: one op that moves the cursor from pos so that `tail` bytes stay unread (total = retained length)
+func drainTo(kind string, variant, pos, total, tail int) string {
+	k := total - pos - tail
+	switch variant % 4 {
+	case 0:
+		return fmt.Sprintf("read %d", k)
+	case 1:
+		return fmt.Sprintf("seek %d 0", total-tail)
+	case 2:
+		return fmt.Sprintf("seek %d 2", -tail)
+	}
+	if kind == "buffer" {
+		return fmt.Sprintf("next %d", k)
+	}
+	return fmt.Sprintf("seek %d 1", k)
+}
+
+// compactions: what follows the drain (rotated through by the templates)
+func compactions(kind string, s int) []string {
+	out := []string{"tidy", "reset", "tidy ; tidy", "write 0102 ; tidy", "seek 0 0 ; tidy", "seek -1 1 ; tidy"}
+	if kind == "buffer" {
+		out = append(out, "grow 1 ; tidy", fmt.Sprintf("grow %d", s), "grow 65", "next 1 ; tidy")
+	} else {
+		out = append(out, "wbyte 7 ; tidy", "rbyte ; tidy", "wi32 -2 ; tidy")
+	}
+	return out
+}
+
+// capHistoryTemplates (class a): large payload(s), drain to every tail of capTails, compaction, then the object is used on
+// with small reads / writes / seeks / Tidy. all = every compaction for every (size, tail); otherwise Tidy for every
+// (size, tail) plus, for every third (size, tail), one other compaction in rotation. light = four tails only (the 256 KiB
+// and 512 KiB lines of the quick tier).
+func capHistoryTemplates(c *hx.Ctx, kind string, sizes []int, all, light bool) {
+	one := "rbyte"
+	if kind == "buffer" {
+		one = "next 1"
+	}
+	n := 0
+	for i, s := range sizes {
+		comps := compactions(kind, s)
+		tails := capTails(s)
+		if light {
+			tails = []int{1, 16384, 16385, s / 2}
+		}
+		for j, t := range tails {
+			for q, comp := range comps {
+				if !all && q != 0 && !((i+j)%3 == 0 && q == 1+(i+j)/3%(len(comps)-1)) {
+					continue
+				}
+				n++
+				seed := (41*i + 7*j + q) % 256
+				ops := []string{fmt.Sprintf("write @%d:%d", s, seed)}
+				total := s
+				if n%4 == 1 { // two payloads: the second arrives when the capacity is exactly used up / nearly used up
+					extra := []int{1, 4096, 65537, s}[(n/4)%4]
+					ops = append(ops, fmt.Sprintf("write @%d:%d", extra, (seed+90)%256))
+					total += extra
+				}
+				tail := t
+				if tail > total {
+					tail = total
+				}
+				ops = append(ops, drainTo(kind, n, 0, total, tail), comp, "read 2")
+				if tail > 16385 { // a large rest is consumed soon (every observation renders all unread bytes: model run time)
+					ops = append(ops, fmt.Sprintf("read %d", tail-7), "tidy")
+				}
+				ops = append(ops, "write 0a0b0c", one, "seek 0 0", "read 100", "tidy", "write #40:9", "read 100000", "tidy", "write 0d", "read 5")
+				c.Emit("%s | %s", kind, strings.Join(ops, " ; "))
+				c.Count(kind + "_cap_history_drain_compact_reuse")
+			}
+		}
+	}
+}
+
+// capCycleTemplates (class b): k rounds of  large payload - drain to `rem` - Tidy - small write - small read - Tidy  on one
+// object (the capacity stays large, the contents stay small, the residue grows by rem+2 per round), with variants that
+// drain by Seek, Reset in every round, or never Tidy between the rounds (the consumed prefix grows to several payloads).
+func capCycleTemplates(c *hx.Ctx, kind string, thorough bool) {
+	sizes := []int{65537, 70000, 131072}
+	rounds := []int{2, 3, 5}
+	if thorough {
+		sizes = append(sizes, 65536, 200000, 262144, 524288, mib)
+		rounds = []int{3, 5, 8, 17}
+	}
+	n := 0
+	for i, s := range sizes {
+		for j, rem := range []int{0, 1, 100, 16384, 16385} {
+			for q, k := range rounds {
+				if (!thorough || s > 70000) && q != (i+j)%len(rounds) {
+					continue
+				}
+				if s > 131072 && k > 5 {
+					k = 4
+				}
+				n++
+				var body string
+				switch n % 5 {
+				case 0, 1:
+					body = fmt.Sprintf("rep %d ( write @%d:$ , read %d , tidy , write #5:$ , read 3 , tidy )", k, s, s-rem)
+				case 2:
+					body = fmt.Sprintf("rep %d ( write @%d:$ , seek %d 2 , tidy , write #5:$ , read 3 , tidy , seek 0 0 , read 1 )", k, s, -rem)
+				case 3:
+					body = fmt.Sprintf("rep %d ( write @%d:$ , read %d , reset , write #5:$ , read 3 , tidy )", k, s, s-rem)
+				default:
+					body = fmt.Sprintf("rep %d ( write @%d:$ , read %d , write #5:$ , read 3 ) ; tidy", k, s, s-rem)
+				}
+				c.Emit("%s | %s ; read 100 ; write 0102 ; tidy ; read %d ; write 0304 ; read 5", kind, body, k*(rem+2)+s)
+				c.Count(kind + "_cap_history_grow_drain_tidy_cycles")
+			}
+		}
+	}
+}
+
+// capResetTemplates (class c): Reset after a large payload (nothing / one byte / half / all but one / all of it consumed),
+// then the object is reused for small traffic, compacted, filled with a large payload again, drained, reset and reused.
+func capResetTemplates(c *hx.Ctx, kind string, sizes []int) {
+	one := "rbyte"
+	if kind == "buffer" {
+		one = "next 1"
+	}
+	for i, s := range sizes {
+		for j, n := range []int{0, 1, s / 2, s - 1, s} {
+			seed := (53*i + 11*j) % 256
+			c.Emit("%s | write @%d:%d ; read %d ; reset ; write 0a0b0c ; read 2 ; tidy ; write #100:7 ; read 200 ; write @%d:%d ; read %d ; tidy ; reset ; write 0d0e ; %s ; %s ; %s ; reset ; write #70:1 ; seek 69 0 ; tidy ; read 5",
+				kind, s, seed, n, s, (seed+77)%256, s-1, one, one, one)
+			c.Count(kind + "_cap_history_reset_reuse")
+		}
+	}
+}
+
+// capHistorySeq (random counterpart of a-c): 1..3 cycles of  grow (1..3 payloads, the first one >= 64 KiB) - drain to a tail
+// (through Read / Next / Seek with any whence) - compaction (Tidy, Reset, seek back, Grow, nothing) - 2..8 small ops (1..3
+// while more than 16 KiB are unread).
+func capHistorySeq(c *hx.Ctx, kind string, allowMiB bool) string {
+	p := newProbe(kind)
+	var ops []string
+	do := func(op string) {
+		p.apply(op)
+		ops = append(ops, op)
+	}
+	for cy, cycles := 0, c.Rng.Range(1, 3); cy < cycles; cy++ {
+		for k, m := 0, c.Rng.Range(1, 3); k < m; k++ {
+			sz := c.Rng.Pick(capSizes[:4])
+			switch {
+			case c.Rng.Intn(8) == 0:
+				sz = 262144
+			case allowMiB && c.Rng.Intn(4) == 0:
+				sz = c.Rng.Pick([]int{mib - 1, mib, mib + 1, 524288, 400000})
+			case k > 0 && c.Rng.Bool():
+				sz = c.Rng.Pick([]int{1, 3, 64, 4096, 16384, 16385})
+			case c.Rng.Intn(4) == 0:
+				sz = c.Rng.Range(65536, 200000)
+			}
+			do("write " + bigPayload(c, sz))
+		}
+		pos, total, unread, _ := p.state()
+		tail := c.Rng.Pick(capTails(unread))
+		if c.Rng.Intn(5) == 0 {
+			tail = c.Rng.Range(0, unread)
+		}
+		do(drainTo(kind, c.Rng.Intn(4), pos, total, tail))
+		switch {
+		case tail == 0:
+			c.Count("cap_history_random_tail_0")
+		case tail <= 16384:
+			c.Count("cap_history_random_tail_le_16k")
+		default:
+			c.Count("cap_history_random_tail_gt_16k")
+		}
+		pos, total, unread, capacity := p.state()
+		switch r := c.Rng.Intn(20); {
+		case r < 10:
+			do("tidy")
+		case r < 13:
+			do("reset")
+		case r < 15:
+			do(fmt.Sprintf("seek %d 0", c.Rng.Range(0, pos)))
+		case r < 17 && kind == "buffer":
+			g := c.Rng.Pick([]int{1, 65, capacity - total, capacity - total + 1, capacity/2 - unread, capacity/2 - unread + 1, 70000})
+			if g < 0 {
+				g = 1
+			}
+			do(fmt.Sprintf("grow %d", g))
+		case r < 17:
+			do(fmt.Sprintf("wi32 %d", int32(c.Rng.U64())))
+		}
+		k := c.Rng.Range(2, 8)
+		if _, _, u, _ := p.state(); u > 16385 { // every observation renders all unread bytes (model run time)
+			k = c.Rng.Range(1, 3)
+		}
+		for ; k > 0; k-- {
+			pos, total, unread, _ = p.state()
+			switch r := c.Rng.Intn(20); {
+			case r < 7:
+				do("write " + randPayload(c, c.Rng.Pick([]int{1, 2, 3, 8, 30, 63, 64, 65, 200})))
+			case r < 11:
+				do(fmt.Sprintf("read %d", c.Rng.Pick([]int{1, 2, 5, 64, 100, unread, unread + 1})))
+			case r < 14:
+				do("tidy")
+			case r < 16:
+				do(randomSeek(c, pos, total))
+			case r < 17:
+				do("reset")
+			case r < 19 && kind == "buffer":
+				do(fmt.Sprintf("next %d", c.Rng.Pick([]int{1, 2, 64, unread})))
+			case r < 19:
+				do("rbyte")
+			default:
+				do(fmt.Sprintf("seek %d 0", c.Rng.Range(0, total)))
+			}
+		}
+	}
+	_, _, unread, _ := p.state()
+	do("tidy")
+	do(fmt.Sprintf("read %d", unread+1))
+	do("write 0102")
+	do("read 5")
+	return kind + " | " + strings.Join(ops, " ; ")
+}
+
 // mix64: SplitMix64 finaliser. hx.NewRng(seed) starts the Weyl sequence at seed*G, so consecutive seeds would yield the
 // same stream shifted by one draw; seeding with a mixed value makes the streams of different VERIF_SEEDs unrelated.
 func mix64(z uint64) uint64 {
@@ -783,5 +1030,27 @@ func gen(c *hx.Ctx) {
 	for i, n := 0, c.Budget(300, 3000); i < n; i++ {
 		c.Emit("%s", randomSeq(c, "buffer", 12, true))
 		c.Count("buffer_offdomain")
+	}
+	// capacity history (64 KiB .. 1 MiB payloads, drain to a tail, compaction, reuse): kept LAST so that the cases of the
+	// sections above stay the same for a given VERIF_SEED
+	for _, kind := range []string{"buffer", "stream"} {
+		if c.Thorough() { // every compaction for two sizes, rotation for the others, four tails for 1 MiB and above
+			capHistoryTemplates(c, kind, []int{65537, 131072}, true, false)
+			capHistoryTemplates(c, kind, []int{65536, 70000, 98304, 131073, 200000, 262144, 400000, 524288}, false, false)
+			capHistoryTemplates(c, kind, []int{mib - 1, mib, mib + 1, 2 * mib}, false, true)
+		} else {
+			capHistoryTemplates(c, kind, capSizes[:4], false, false)
+			capHistoryTemplates(c, kind, []int{262144, 524288}, false, true)
+		}
+		capCycleTemplates(c, kind, c.Thorough())
+		if c.Thorough() {
+			capResetTemplates(c, kind, append(append([]int{}, capSizes...), capSizesMore[:7]...)) // up to 1 MiB
+		} else {
+			capResetTemplates(c, kind, capSizes[:4])
+		}
+		for i, n := 0, c.Budget(24, 120); i < n; i++ {
+			c.Emit("%s", capHistorySeq(c, kind, c.Thorough() && i%3 == 0))
+			c.Count(kind + "_cap_history_random")
+		}
 	}
 }
